@@ -120,7 +120,7 @@ Proof.
   destruct Hmiss as [mo [Hrm [Hlm Hbool]]]. rewrite Hrm. cbn [rbind].
   destruct (pm_varlength pm) eqn:Evl.
   - (* variable length *)
-    destruct Hvl as [Hdu [d [Hd Hdd]]].
+    destruct Hvl as [Hdu [_ [d [Hd [Hdd _]]]]].
     assert (Hh : ahas path_DATA ch = true) by (apply ahas_true; eauto). rewrite Hh.
     rewrite (proj2 (expect_array_ok a ch path_DATA d) Hd). cbn [rbind rmap].
     eexists. split; [reflexivity|].
